@@ -1056,6 +1056,10 @@ class Interp:
             return NONE
         if t == "()":
             return UNIT
+        cands = [b for b in self.c.bodies if b.get("name") == "default" and "default::Default" in (b.get("impl_trait") or "")
+                 and (b.get("impl_ty") or "").split("<")[0] == base_ty(t) and b.get("body") is not None]
+        if len(cands) == 1:
+            return self.force(self.call_body(cands[0], []))
         raise Unknown("Default::default() of %s" % t)
 
     def iterate(self, v):
